@@ -52,7 +52,7 @@ def required_cells(tier):
         cells += [f"modelled:{f}:joined", f"modelled:{f}:separate"]
     cells += ["prefix:-g*", "prefix:-c*", "prefix:-o*", "prefix:-O*", "prefix:-i*", "prefix:-I*", "prefix:-D*",
               "unmodelled-with-value", "value:space", "value:equals", "value:quote", "value:leading-dash", "command-string",
-              "database-file", "database-literal-metacharacters", "database-multi-entry", "class:E", "class:R", "each-catalogue-flag-next-to-modelled"]
+              "database-file", "database-literal-metacharacters", "database-entry-in-build-directory", "environment:CPATH-set", "database-multi-entry", "class:E", "class:R", "each-catalogue-flag-next-to-modelled"]
     return cells
 
 
@@ -99,6 +99,12 @@ class Observer:
 
     def parse(self, argv):
         self.calls += 1
+        # the compiler's environment variables are not options of the command: setting them changes nothing
+        for var in ("CPATH", "C_INCLUDE_PATH", "CPLUS_INCLUDE_PATH"):
+            if self.calls % 3 == 0:
+                os.environ[var] = "/from/environment/include:/opt/env/inc"
+            else:
+                os.environ.pop(var, None)
         try:
             with hooks.monitor(platform=False, evals=False, assoc=False) as ev:
                 cfgs = self.config.ArgumentParser(argv[0]).parse_args(list(argv[1:]))
@@ -194,6 +200,8 @@ def check_argv(ctx, obs, argv, cls, cells_extra=()):
     acc.hook("parse_args")
     cells = set(cells_extra)
     cells.add("class:" + cls)
+    if "CPATH" in os.environ:
+        cells.add("environment:CPATH-set")
     toks = argv[1:]
     has_mod = any(exp)
     has_unmod = any(t in argmodel.SEPARATE or t in argmodel.STANDALONE for t in toks)
@@ -395,11 +403,18 @@ def database_form(ctx, obs, rng, work):
         f.write("int a;\n")
     mods = [m for m in modelled_items() if m[0][-1] not in ("-x", "-dash.h")]
     unm = unmodelled_items()
+    # relative search directories exist below the root, but not below the build directory half of the entries run in:
+    # they are still the build directory's (non-existent) sub-directories
+    for p_ in PATHS:
+        if not p_.startswith("/") and not p_.startswith(".."):
+            os.makedirs(os.path.join(work, p_), exist_ok=True)
+    os.makedirs(os.path.join(work, "build"), exist_ok=True)
     for i in range(n):
+        wd = work if i % 2 == 0 else os.path.join(work, "build")
         argv = [rng.choice(["gcc", "cc", "clang"])]
         for _ in range(rng.randint(1, 8)):
             argv += rng.choice(mods)[0] if rng.random() < 0.5 else rng.choice(unm)
-        argv += ["-c", "src/a.c"]
+        argv += ["-c", os.path.join(work, "src/a.c")]
         if not ctx.mine(i) or not all(SAFE.match(a) for a in argv):
             continue
         exp = expected(argv)
@@ -410,7 +425,7 @@ def database_form(ctx, obs, rng, work):
             continue        # already judged (and classified) by the direct path
         results = []
         for form in ("arguments", "command"):
-            entry = {"file": "src/a.c", "directory": work}
+            entry = {"file": os.path.join(work, "src/a.c"), "directory": wd}
             if form == "arguments":
                 entry["arguments"] = argv
             else:
@@ -421,14 +436,14 @@ def database_form(ctx, obs, rng, work):
             try:
                 es = config.load_database(db, work)
                 e = [x for x in es if x["pass_name"] == "default"][0]
-                results.append((e["defines"], [os.path.relpath(p, work) if not q.startswith("/") else p
+                results.append((e["defines"], [os.path.relpath(p, wd) if not q.startswith("/") else p
                                                for p, q in zip(e["include_paths"], exp[1])], e["include_files"]))
             except Exception as ex:
                 results.append(f"{type(ex).__name__}: {ex}")
         want = (exp[0], [os.path.normpath(p) if not p.startswith("/") else os.path.normpath(p) for p in exp[1]], exp[2])
         if results[0] == results[1] and not isinstance(results[0], str) and \
                 (results[0][0], [os.path.normpath(x) for x in results[0][1]], results[0][2]) == want:
-            acc.held(cells=["database-file"], cls="database")
+            acc.held(cells=["database-file"] + (["database-entry-in-build-directory"] if wd != work else []), cls="database")
         else:
             acc.violated({"input": {"argv": argv, "via": "database"},
                           "witness": {"argv": argv, "arguments_form": results[0], "command_form": results[1], "expected": want}},
